@@ -11,6 +11,8 @@
 //  5. range over ordered-key map -> range vsched.Sorted(m)   (type-aware)
 //  5b. range over a map with unsortable keys -> range vsched.Permuted(m): ordered by a harness-supplied key name
 //      (request id) and rotated by a choice point
+//  7. close(ch) / <x>.cancel...(…) statements -> vsched.Signal(); <stmt>   (a scheduling point before channel closes
+//     and context cancellations, which no shim intercepts)
 //
 // Exit status: 0 ok, 2 infrastructure error (never 1).
 package main
@@ -207,6 +209,7 @@ func rewriteFile(fset *token.FileSet, f *ast.File, src []byte, name string, plai
 
 	needSched, needVos, needMemnet := false, false, false
 	var selects []*ast.SelectStmt
+	noSignal := map[ast.Stmt]bool{}
 	mapSet := map[ast.Expr]bool{}
 	for _, e := range mapRanges {
 		mapSet[e] = true
@@ -272,6 +275,31 @@ func rewriteFile(fset *token.FileSet, f *ast.File, src []byte, name string, plai
 		case *ast.SelectStmt:
 			if !plain {
 				selects = append(selects, x)
+			}
+		case *ast.ForStmt:
+			if x.Post != nil {
+				noSignal[x.Post] = true
+			}
+		case *ast.LabeledStmt:
+			noSignal[x.Stmt] = true
+		case *ast.ExprStmt:
+			// rewrite 7
+			if call, ok := x.X.(*ast.CallExpr); ok && !plain && !noSignal[x] {
+				fn := ""
+				switch f := call.Fun.(type) {
+				case *ast.Ident:
+					if f.Name == "close" && f.Obj == nil || strings.Contains(strings.ToLower(f.Name), "cancel") {
+						fn = f.Name
+					}
+				case *ast.SelectorExpr:
+					if strings.Contains(strings.ToLower(f.Sel.Name), "cancel") {
+						fn = f.Sel.Name
+					}
+				}
+				if fn != "" {
+					needSched = true
+					edits = append(edits, edit{off(x.Pos()), off(x.Pos()), "vsched.Signal(); "})
+				}
 			}
 		case *ast.RangeStmt:
 			if mapSet[x.X] {
